@@ -270,7 +270,11 @@ func (w *pWorld) releaseGate(faulty bool) bool {
 			f = pFault{mode: []string{"before", "after"}[w.r.Intn(2)], code: code}
 		case "assign4", "assign6":
 			n := g.n4 + g.n6
-			switch w.r.Intn(3) {
+			k := w.r.Intn(3)
+			if w.focus == "C06" && w.r.Intn(2) == 0 {
+				k = 1 + w.r.Intn(2) // the call takes effect and reports an error
+			}
+			switch k {
 			case 0:
 				f = pFault{mode: "before", code: code}
 			case 1:
@@ -336,6 +340,10 @@ func (w *pWorld) runCase(caseSeed uint64, focus string) {
 	pods := []string{"p1", "p2", "p3", "p4", "p5", "p6"}
 	steps := 30 + r.Intn(40)
 	faultRate := []int{0, 10, 25, 40}[r.Intn(4)]
+	if focus == "C06" || focus == "C07" {
+		faultRate = []int{10, 25, 40, 60}[r.Intn(4)]
+	}
+	w.focus = focus
 	// warm-up: some pods ask, the cloud answers, so that most of the case runs on a populated pool
 	if r.Intn(4) != 0 {
 		for k := 1 + r.Intn(4); k > 0; k-- {
